@@ -962,6 +962,8 @@ def _run(ctx, which):
     if which == 'C05':
         for case in unwinding_cells()[ctx.shard::ctx.nshards]:
             run_unwinding(ctx, case)
+        for case in own_object_cells()[ctx.shard::ctx.nshards]:
+            run_own_object(ctx, case)
     if ctx.shard == 0 and which == 'C05':
         sequences(ctx, which)
 
@@ -1106,9 +1108,89 @@ def run_unwinding(ctx, case):
     ctx.case('unwinding/' + tail)
 
 
+# ---------------------------------------------------------------------------------------------------------------------
+# C05: objects of the student's own classes handed back to the student's functions as arguments of call()
+# ---------------------------------------------------------------------------------------------------------------------
+OWN_OBJECTS = '''import sys, io, time
+
+class Quiet:
+    """ answers unknown attributes after silencing the console and the clock (it never puts them back) """
+    def __init__(self):
+        self.known = {'volume': 3}
+    def __getattr__(self, name):
+        sys.stdout = io.StringIO()
+        time.sleep = len
+        if name in self.__dict__.get('known', {}):
+            return self.__dict__['known'][name]
+        raise AttributeError(name)
+
+class Plain:
+    def __init__(self):
+        self.volume = 4
+
+def make_quiet():
+    return Quiet()
+
+def use(thing):
+    return getattr(thing, 'volume', 0) + getattr(thing, 'balance', 1)
+
+quiet = Quiet()
+plain = Plain()
+'''
+
+
+def own_object_cells():
+    return [{'scenario': 'own-object-as-argument', 'tracer': t, 'which': w, 'threaded': th}
+            for t in TRACERS for w in ('from-the-namespace', 'from-an-unproxied-result', 'plain-object') for th in (False, True)]
+
+
+def run_own_object(ctx, case):
+    try:
+        sandbox, report = new_sandbox({'answer.py': OWN_OBJECTS}, case['tracer'], case['threaded'])
+    except ImportError:
+        ctx.count('tracer_unavailable')
+        return
+    sbx = commands_in_use()
+    sbx.run()
+    if sbx.get_exception() is not None:
+        ctx.count('setup_run_failed')
+        return
+    tail = '%s|tracer=%s|%s' % (case['which'], case['tracer'], 'threaded' if case['threaded'] else 'direct')
+    snap0 = Snapshot(sandbox)
+    if case['which'] == 'from-the-namespace':
+        thing = sandbox.data['quiet']
+    elif case['which'] == 'plain-object':
+        thing = sandbox.data['plain']
+    else:
+        # the documented switch for graders that want the bare values back
+        sandbox.result_proxy_class = None
+        thing = sbx.call('make_quiet')
+    for what, detail in snap0.diff(sandbox):
+        ctx.violation('C05|not-restored|%s|after-call-returning-a-student-object|%s' % (what, tail), dict(case), {'what': what, 'detail': detail})
+    snap = Snapshot(sandbox)
+    raised = None
+    try:
+        sbx.call('use', thing)
+    except BaseException as e:
+        raised = e
+    ctx.count('executions')
+    ctx.count('state_comparisons')
+    ctx.count('calls_with_a_student_object_as_argument')
+    diffs = snap.diff(sandbox)
+    for what, detail in diffs:
+        ctx.violation('C05|not-restored|%s|after-call-with-a-student-object-as-argument|%s' % (what, tail), dict(case), {'what': what, 'detail': detail, 'raised': safe_repr(raised)[:200]})
+    if diffs or snap0.diff(sandbox):
+        snap0.restore()
+        sandbox._current_patches.clear()
+        sandbox._current_stdout.clear()
+    ctx.case('own-object/' + tail)
+
+
 def replay(ctx, which, case):
     if case.get('scenario') == 'unwinding':
         return run_unwinding(ctx, case)
+    if case.get('scenario') == 'own-object-as-argument':
+        return run_own_object(ctx, case)
     if 'sequence' in case:
         from pedal.sandbox import commands as sbx
         by = {m['mode']: m for m in all_modes()}
